@@ -2899,7 +2899,7 @@ get_number(int c) {
     // A C++14-style binary number.
     get();
     c = peek();
-    string bin(1, (char)c);
+    string bin;
 
     while (c != EOF && (c == '0' || c == '1')) {
       bin += get();
